@@ -214,6 +214,10 @@ func init() {
 				op.Texts = []string{gen.Pick(t, "text", pool)}
 				open[uri] = op.Texts[0]
 			case "change":
+				if gen.Chance(t, "nochange", 6) {
+					op.Texts = nil // a change notification without content changes: the text stays
+					break
+				}
 				op.Texts = []string{gen.Pick(t, "text", pool)}
 				if gen.Chance(t, "two", 35) {
 					op.Texts = append(op.Texts, gen.Pick(t, "text2", pool))
@@ -227,10 +231,10 @@ func init() {
 		return c
 	}
 	ev.Register(&ev.Prop{
-		ID:    "C19X",
-		Rule:  "(b) exhaustive: all well-formed histories of length <= 3 (thorough: 4) over 2 URIs x 3 texts (clean with a variable, warning-only, broken) x 2 positions (on a variable use, elsewhere), with the same fresh-state oracle",
-		New:   func() any { return &C19Case{} },
-		Check: checkC19,
+		ID:        "C19X",
+		Rule:      "(b) exhaustive: all well-formed histories of length <= 3 (thorough: 4) over 2 URIs x 3 texts (clean with a variable, warning-only, broken) x 2 positions (on a variable use, elsewhere), with the same fresh-state oracle",
+		New:       func() any { return &C19Case{} },
+		Check:     checkC19,
 		Enumerate: enumC19,
 	})
 	ev.Register(&ev.Prop{
@@ -254,7 +258,7 @@ func init() {
 		ec := gen.NewTG(t, k).Case()
 		var seps []string
 		for i, n := 0, 4+gen.Uniform(t, "nseps", 8); i < n; i++ {
-			seps = append(seps, gen.Pick(t, "sep", []string{" ", " ", " ", "\n", "\n  ", "  ", "\t", " /* é */ ", "// c\n"}))
+			seps = append(seps, gen.Pick(t, "sep", []string{" ", " ", " ", "", "", "\n", "\n  ", "  ", "\t", " /* é */ ", "/**/", "// c\n"}))
 		}
 		return &C19NCase{Script: ec.Script, Seps: seps, URI: gen.Pick(t, "uri", lspURIs)}
 	}
@@ -350,6 +354,15 @@ func checkC19(cc any) *ev.Verdict {
 		switch op.Kind {
 		case "open", "change":
 			var r lspResult
+			if op.Kind == "change" && len(op.Texts) == 0 {
+				// no content change: the server must survive and the document stays as it was
+				r = lspCall(&st, "textDocument/didChange", map[string]any{"textDocument": map[string]any{"uri": op.URI, "version": i}, "contentChanges": []any{}})
+				if r.Panic != "" {
+					return v.Failf("empty-change", "step %d: a didChange notification without content changes crashes the server: %s", i, firstLines(r.Panic, 6))
+				}
+				changes++
+				continue
+			}
 			text := op.Texts[len(op.Texts)-1]
 			if op.Kind == "open" {
 				r = lspCall(&st, "textDocument/didOpen", map[string]any{"textDocument": map[string]any{"uri": op.URI, "text": text}})
